@@ -115,11 +115,13 @@ def lns[T](
         candidate = repair(partial, rng)
         candidate_obj = evaluate(candidate)
 
+        # The best evaluated candidate is the answer whatever the acceptance rule does with it
+        if candidate_obj < best_obj:
+            best_solution, best_obj = candidate, candidate_obj
+            best_iter = iteration
+
         if accept_fn(current_obj, candidate_obj, iteration, rng):
             current, current_obj = candidate, candidate_obj
-            if current_obj < best_obj:
-                best_solution, best_obj = current, current_obj
-                best_iter = iteration
 
         if report_progress(
             on_progress,
